@@ -21,6 +21,10 @@ class FuncOp(Operation):
     def __init__(self, name, function_type=None, region=None, visibility=None):
         self.sym_name = StringAttr(name)
         self._init_op([], [], [])
+        if region is not None:
+            self.body = region
+            self.regions = [region]
+            region.parent = self
 
     @staticmethod
     def external(name, input_types=(), return_types=()):
